@@ -55,7 +55,7 @@ def overlay(native):
     for m in model_files():
         ov[os.path.join(REPO, "internal/verifmodel", os.path.basename(m))] = m
     for pkgdir, f, path in harness_files():
-        if f.endswith("_test.go"):
+        if f.endswith("_test.go") and not native:
             continue
         ov[os.path.normpath(os.path.join(REPO, pkgdir, "zz_verif_" + f))] = path
     return ov
@@ -147,6 +147,31 @@ def native_replay(workdir, pkgdir, replay_paths, timeout=600):
         if p not in res:
             res[p] = {"result": "not-run " + out[-800:].replace("\n", " "), "events": [], "reach": []}
     return res
+
+
+def native_race_test(workdir, pkgdir, testname, rounds=3):
+    """Runs a native concurrency test under the Go race detector. Returns (raced, excerpt)."""
+    pkgname, names = pkg_harnesses(pkgdir)
+    ov = overlay(True)
+    ovp = os.path.join(workdir, "race_overlay.json")
+    os.makedirs(workdir, exist_ok=True)
+    json.dump({"Replace": ov}, open(ovp, "w"), indent=1)
+    env = dict(GOENV, CGO_ENABLED="1")
+    last = ""
+    for _ in range(rounds):
+        try:
+            r = subprocess.run(["go", "test", "-race", "-vet=off", "-count=1", "-run", "^%s$" % testname, "-overlay", ovp, "./" + pkgdir],
+                               cwd=REPO, env=env, capture_output=True, text=True, timeout=900)
+        except subprocess.TimeoutExpired:
+            return False, "timeout"
+        out = r.stdout + r.stderr
+        last = out[-1500:]
+        if "DATA RACE" in out or "concurrent map" in out:
+            i = out.find("DATA RACE")
+            return True, out[max(0, i - 50):i + 600].replace("\n", " | ")
+        if "-race requires" in out or "build constraints exclude" in out or "cannot find package" in out:
+            return False, "race detector unavailable: " + out[-300:]
+    return False, "no race reported natively: " + last.replace("\n", " | ")[-300:]
 
 
 def write_replay(dirpath, prop, v_or_sample, harness, params, extra=None):
@@ -279,7 +304,32 @@ def run_check(prop, P, tier, seed):
             seen.add(key)
             rp = write_replay(replays_dir, prop, v, v["harness"], v.get("params"), {"label": v["label"], "kind": v["kind"], "site": v.get("site"), "msg": v.get("msg"), "map_order_nondet": v.get("map_order_nondet", False)})
             by_pkg.setdefault(r["_pkgdir"], []).append((rp, v))
+    race_test = P.get("native_race_test")
+    if race_test:
+        # schedules cannot be imposed natively: race counterexamples are confirmed by running
+        # the same operations concurrently under the race detector
+        race_items = []
+        for pkgdir in list(by_pkg):
+            keep = []
+            for rp, v in by_pkg[pkgdir]:
+                (race_items if v["label"].startswith("race:") else keep).append((rp, v))
+            by_pkg[pkgdir] = keep
+        if race_items:
+            raced, excerpt = native_race_test(work, race_test[0], race_test[1])
+            for rp, v in race_items:
+                if not raced:
+                    engine_mismatch.append("race schedule for %s/%s not confirmed natively: %s" % (v["harness"], v["label"], excerpt))
+                    continue
+                k = match_known(known, v)
+                if k is not None:
+                    known_lines.append("KNOWN-FINDING: property=%s %s [%s/%s]" % (prop, k.get("text", ""), v["harness"], v["label"]))
+                else:
+                    n_viol_reported += 1
+                    viol_lines.append("VIOLATION property=%s replay=%s" % (prop, rp))
+                    log("  violation: harness=%s label=%s (race; native race detector: %s)" % (v["harness"], v["label"], excerpt[:300]))
     for pkgdir, items in by_pkg.items():
+        if not items:
+            continue
         no_native = P.get("no_native_replay", False)
         if no_native:
             nat = {rp: {"result": "skipped"} for rp, _ in items}
